@@ -110,3 +110,74 @@ def response_reads(chk, prog, rid, cfg=None):
                 chk.ob(rid, fn, f"bare read {t['callee'].split('::')[-1]} in the response parser", False,
                        "a partial read would be taken for complete data", where=b.where(blk), cfg=cfg)
     chk.floor("exact reads in the response parser", good, 3)
+
+
+SPLIT_FAMILY = r"str::<impl str>::(split|splitn|rsplit|rsplitn|split_once|rsplit_once|split_terminator|rsplit_terminator|split_inclusive|split_at|split_at_checked|find|rfind|split_whitespace|split_ascii_whitespace|match_indices|rmatch_indices)$"
+
+
+def first_split(d, sep):
+    """How a piece of a line was cut out at the character `sep`: every split-family call on `sep` in description d.  (ok, text) where ok
+    means "split at the FIRST occurrence, into at most two pieces": splitn(2, sep) or split_once(sep) (an arm that keeps the whole value
+    when there is no `sep` contributes no call)."""
+    pats = (("lit", sep), ("lit", chr(sep)))
+    hits = [c for c in core.desc_calls(d) if core.re.search(SPLIT_FAMILY, c[1]) and any(a in pats for a in c[2][1:])]
+    # string patterns that contain the separator (": ") are cuts at the separator as well
+    hits += [c for c in core.desc_calls(d) if core.re.search(SPLIT_FAMILY, c[1]) and c not in hits and
+             any(isinstance(a, tuple) and a and a[0] == "lit" and isinstance(a[1], str) and chr(sep) in a[1] for a in c[2][1:])]
+    if not hits:
+        return False, f"no split at {chr(sep)!r} found"
+    texts, ok = [], True
+    for c in hits:
+        name = c[1].rsplit("::", 1)[-1]
+        args = ", ".join(repr(a[1]) if isinstance(a, tuple) and a and a[0] == "lit" else ".." for a in c[2][1:])
+        texts.append(f"{name}({args})")
+        if name == "splitn" and len(c[2]) == 3:
+            ok = ok and c[2][1] == ("lit", 2) and c[2][2] in pats
+        elif name == "split_once" and len(c[2]) == 2:
+            ok = ok and c[2][1] in pats
+        else:
+            ok = False
+    return ok, " / ".join(sorted(set(texts)))
+
+
+def header_line_split(chk, prog, rid, fn, cfg=None):
+    """Header lines are cut at their first ':' — in both the request and the response parser (a string pattern such as ": ", or the
+    last ':', rejects or mis-names valid header lines, and puts the two parsers out of step)."""
+    b = prog.impl_body(fn) if hasattr(prog, "impl_body") else prog.bodies.get(fn)
+    if b is None:
+        return
+    n = 0
+    for blk, t in b.calls_to(r"http::headers::Headers::add$"):
+        if len(t["args"]) < 3:
+            continue
+        nd, vd = describe(prog, b, t["args"][1]), describe(prog, b, t["args"][2])
+        if nd[0] == "variant" or not core.desc_contains(nd, lambda y: y[0] == "call" and y[1].endswith("HeaderType as std::convert::From<&str>>::from")):
+            continue        # a header the parser adds itself
+        n += 1
+        for what, d in (("name", nd), ("value", vd)):
+            ok, how = first_split(d, 58)
+            chk.ob(rid, b.path, f"header {what}: the line is split at its first ':'", ok,
+                   f"header {what} is cut out with {how}: a valid header line (no space after the colon, a value containing ': ', a second colon) is rejected or mis-split",
+                   where=b.where(blk), cfg=cfg)
+    chk.floor(f"header lines parsed in {fn.split('::')[-2]}::{fn.split('::')[-1]}" + (f" [{cfg}]" if cfg else ""), n, 1)
+
+
+def target_split(chk, prog, rid, cfg=None):
+    """The request target is cut at its FIRST '?': path before it, query after it (later '?' belong to the query)."""
+    fn = "humphrey::http::request::Request::from_stream_inner"
+    b = prog.impl_body(fn)
+    if b is None:
+        return
+    n = 0
+    for blk_ in b.blocks:
+        for s_ in blk_["stmts"]:
+            rv = s_.get("rv")
+            if rv and rv.get("k") == "agg" and str(rv.get("adt", "")).endswith("http::request::Request") and "uri" in rv.get("fields", []):
+                n += 1
+                f = dict(zip(rv["fields"], rv["ops"]))
+                for what in ("uri", "query"):
+                    ok, how = first_split(describe(prog, b, f[what]), 63)
+                    chk.ob(rid, b.path, f"request {what}: the target is split at its first '?'", ok,
+                           f"{what} is cut out of the target with {how}: a target with two '?' is split in the wrong place (the path then carries part of the query, or the query is truncated)",
+                           cfg=cfg)
+    chk.floor(f"Request construction sites" + (f" [{cfg}]" if cfg else ""), n, 1)
